@@ -113,6 +113,11 @@ class ThrottleExecutor(CanCustomizeBind, Executor):
         self._to_submit = deque()
         self._lock = Lock()
         self._event = get_event()
+        # Used to wake callers blocked in submit().
+        # This must be distinct from self._event: that one is cleared by the
+        # submit thread whenever it wakes up, which could lose the wake-up
+        # of a blocked caller.
+        self._unblock_event = get_event()
         self._running_count = AtomicInt()
         self._throttle = count if callable(count) else lambda: count
         self._last_throttle = self._throttle()
@@ -151,15 +156,19 @@ class ThrottleExecutor(CanCustomizeBind, Executor):
             metrics.EXEC_INPROGRESS.labels(type="throttle", executor=self._name).dec()
             self._delegate.shutdown(wait, **_kwargs)
             self._event.set()
+            self._unblock_event.set()
             if wait:
                 self._thread.join(MAX_TIMEOUT)
 
     def _block_until_ready(self, throttle_val):
         while self._block and not self._shutdown.is_shutdown:
+            # Clear before checking the queue, so that a wake-up arriving
+            # after the check is not lost.
+            self._unblock_event.clear()
             if throttle_val is None or len(self._to_submit) < throttle_val:
                 return
             self._log.debug("%s: throttling on submit", self._name)
-            self._event.wait(30.0)
+            self._unblock_event.wait(30.0)
 
     def _eval_throttle(self):
         try:
@@ -189,6 +198,7 @@ class ThrottleExecutor(CanCustomizeBind, Executor):
                     self._to_submit.remove(job)
                     metrics.THROTTLE_QUEUE.labels(executor=self._name).dec()
                     self._log.debug("Cancelled %s", job)
+                    self._unblock_event.set()
                     return True
         self._log.debug("Could not find for cancel: %s", future)
         return False
@@ -227,6 +237,10 @@ def _submit_loop_iter(executor):
         executor._log.debug(
             "Submitting %s, throttling %s", len(to_submit), len(executor._to_submit)
         )
+
+    if to_submit:
+        # The queue got shorter: callers blocked in submit() may proceed
+        executor._unblock_event.set()
 
     for job in to_submit:
         executor._do_submit(job)
